@@ -18,6 +18,7 @@ from random import random
 
 import numpy as np
 
+from ...__settings import settings
 from ...sdk.circuit import Circuit
 from ...sdk.state import State
 from ...sdk.utils import (
@@ -471,6 +472,7 @@ class Sampler:
             self.backend.backend,
             self.__circuit.n_modes,
             self.__circuit.heralds,
+            settings.sampler_probability_threshold,
         ]
         # Loop through source parameters and add these as well
         for prop in [
